@@ -187,6 +187,16 @@ def cases(tier, seed):
         elif x < 0.5:
             rec["form"] = "source-abc-sequence"
         yield rec
+    # a Split with the default block size (1000) in flows longer than that and in endless ones
+    for j in range(24 if tier == "quick" else 200):
+        rng = gen.rng_for(seed, "C02default", j)
+        nb = rng.randint(1, 3)
+        sp = ["split", [[rand_el(rng, 2, False) for _ in range(rng.randint(1, 2))]
+                        for _ in range(nb)], "default", rng.choice([True, False])]
+        els = [rand_el(rng, 2, False) for _ in range(rng.randint(0, 1))] + [sp] + \
+              [rng.choice([["slice", [None, 5, None]], ["slice", [2, 1003, 500]], ["call", "inc"]])]
+        yield {"k": "trace", "els": els, "n": rng.choice([1001, 1500, 2300]),
+               "inf": j % 2 == 0, "stops": [3], "big": 1, "budget": 2600, "cap": 30}
     big = 400 if tier == "quick" else 3000
     for s in range(1, 6):
         for form in ["stop", "start_stop", "neg_start", "neg_start_pos_stop", "neg_neg", "step"]:
@@ -241,6 +251,8 @@ def build(r):
     if k == "seq":
         return lena.core.Sequence(*[build(e) for e in r[1]])
     if k == "split":
+        if r[2] == "default":
+            return lena.core.Split([tuple(build(e) for e in br) for br in r[1]], copy_buf=r[3])
         return lena.core.Split([tuple(build(e) for e in br) for br in r[1]],
                                bufsize=r[2], copy_buf=r[3])
     if k == "runif":
@@ -326,6 +338,8 @@ def ref_stream(r, el, flow):
     if k == "split":
         def gen_split():
             bufsize, copy_buf = r[2], r[3]
+            if bufsize == "default":
+                bufsize = 1000          # the documented default
             flow_it = iter(flow)
             empty = True
             while True:
@@ -573,8 +587,8 @@ def _trace_case(r, obs):
         if r["inf"]:
             # reference on an unbounded flow with a generous budget; if even the ideal
             # pipeline does not finish, the case is about the prefix only
-            kw = {"n": None, "budget": 700 if r.get("big") else 60}
-        cap = 350 if r.get("big") else 40
+            kw = {"n": None, "budget": r.get("budget") or (700 if r.get("big") else 60)}
+        cap = r.get("cap") or (350 if r.get("big") else 40)
         tr_ref, res_ref, out_ref = trace_run(ref_start, kw, take=cap)
         pr, end_r, _, total_ref = pulls_before_each_got(tr_ref)
         kw_real = dict(kw)
